@@ -710,6 +710,23 @@ func ruleP7(r *Run) {
 				}
 				return true
 			})
+			// onExit (leave the pool) comes first: while Close runs - it calls the user's OnClose and fails the pending calls -
+			// the dying connection must not be handed to new calls
+			var posOnExit, posClose token.Pos
+			ast.Inspect(fd.Body, func(m ast.Node) bool {
+				if c, ok := m.(*ast.CallExpr); ok {
+					if id, ok := ast.Unparen(c.Fun).(*ast.Ident); ok && id.Name == "onExit" && posOnExit == 0 {
+						posOnExit = c.Pos()
+					}
+					if methodName(c) == "Close" && posClose == 0 {
+						posClose = c.Pos()
+					}
+				}
+				return true
+			})
+			if posOnExit != 0 && posClose != 0 {
+				r.Check(posOnExit < posClose, tr+".conn.Exit leaves the pool before it closes", fd.Pos(), "onExit() before Close(err)", "Exit closes the connection before it takes it out of the pool: a call issued while Close runs (the OnClose callback, the sweep of the pending calls) is put on the dead connection and fails with the error of the call that killed it")
+			}
 			r.Check(len(narrowed) == 0, tr+".conn.Exit closes on every error", fd.Pos(), "Close(err) depends only on err != nil", fmt.Sprintf("Exit skips Close(err) depending on %s: when a loop ends with such an error the connection is never closed and its pending calls are never failed - they wait for their own timeouts, OnClose never runs", strings.Join(narrowed, ", ")))
 			r.Check(callsOnExit && closes, tr+".conn.Exit drops the connection and fails pending calls", fd.Pos(), "onExit() ... c.Close(err)", "Exit no longer runs onExit (pool removal) and Close(err) (failing pending calls)")
 		}
